@@ -237,6 +237,16 @@ P('C13', ['tcp.parse', 'tcp.send', 'tcp.processSend', 'tcp.processRead', 'tcp.re
   lemmas=['L-STREAM'], modules=['contracts.tcp_units'], trusted=['T-SOCKET', 'T-ZLIB', 'T-PICKLE', 'T-STRUCT'],
   assumptions=['no-crypto', 'A-RANGE: frame length < 2^31', 'messages are not None (None means "no message" in the parse loop)'])
 
+P('C14', ['transport.incoming', 'transport.dropNode', 'transport.shouldConnect', 'transport.send', 'transport.onDisconnected', 'tcp.disconnect'],
+  'Only the safety clauses a per-call contract can state: identity (a message is only ever delivered as coming from the member whose '
+  'address the connection\'s first message named; unknown or removed addresses are disconnected and bound to nothing, O14.1), '
+  'membership filter after dropNode (O14.2), single dialer per pair (O14.3), truthful send (O14.4), one disconnect notification '
+  'and at most one reconnect attempt per disconnect (O14.5).',
+  'NOT decided: "re-establishes exactly one working connection within a bounded time after any fault pattern" and "notifications '
+  'match the ability to exchange messages" over fault histories - liveness / fault-sequence clauses outside this technique (same reason '
+  'as C05). Node universe of 3 member addresses in these units; address order is modelled as a strict total order.',
+  modules=['contracts.tr_units', 'contracts.tcp_units'], trusted=['T-SOCKET'], assumptions=['no-crypto'])
+
 NOT_BUILT.update({
     'C07': 'term and vote are not persisted by the code at all (syncobj.py __init__ assigns 0/None, .meta holds only the commit index): the '
            'single obligation fails by construction; recorded as known finding D10 in DESIGN.md/known_findings.json rather than claimed as a check',
